@@ -5,7 +5,7 @@ From Coq Require Import NArith ZArith List Bool.
 From Srtp Require Import Util Constants KeyLimit Rdb Rdbx Icm World Stream Rtp Rtcp Session.
 From Srtp.Crypto Require Import AES SHA1 HMAC.
 From Srtp.Spec Require Rfc3711.
-From Srtp Require BitvecModel EqualModel Sha1Model HmacModel.
+From Srtp Require BitvecModel EqualModel Sha1Model HmacModel WipeModel.
 Import ListNotations.
 Local Open Scope Z_scope.
 
@@ -286,6 +286,24 @@ Definition run_api (m : mstate) (code : Z) (a : list Z) (b : list bytes) : mstat
           (m, [OZ 0; OZ 0; OB (if (arg a 3 <? 0) then [] else auth_compute ak (nth 0 b []))])
         end
       end
+    end
+  else if code =? 77 then (* dealloc_trace sid : srtp_dealloc + the wipes / frees it performs, in order *)
+    match assoc (ms_ses m) (arg a 0) with
+    | None => (m, [OZ (-2); OB []])
+    | Some s =>
+      let '(w, r) := session_dealloc (mk_world s empty_bufs (ms_heap m)) in
+      (set_ses m (assoc_del (ms_ses m) (arg a 0)) (w_h w),
+       [OZ (status_of r); OB (flat_map WipeModel.hev_bytes (WipeModel.session_dealloc_events s))])
+    end
+  else if code =? 78 then (* remove_trace sid ssrc *)
+    match assoc (ms_ses m) (arg a 0) with
+    | None => (m, [OZ (-2); OB []])
+    | Some s =>
+      let evs := match list_get (ss_list s) (arg a 1) with
+                 | Some t => flat_map WipeModel.hev_bytes (WipeModel.stream_dealloc_events 1 t)
+                 | None => [] end in
+      let '(w, r) := stream_remove (arg a 1) (mk_world s empty_bufs (ms_heap m)) in
+      (set_ses m (assoc_set (ms_ses m) (arg a 0) (w_s w)) (w_h w), [OZ (status_of r); OB evs])
     end
   else if code =? 76 then
     (* secrets pid : the byte strings that must never be readable in a block handed back to the allocator:
